@@ -13,7 +13,8 @@ RULE = ('same seeded program generator as C01 with operand reuse (legs shared th
         'flags, q_map) and re-checked afterwards: only the receiver of an in-place method (and arrays documented to '
         'share its data) may change, leg objects never; results documented as deep copies must not share block memory, '
         '_qdata, qtotal, label list or leg list with any live array; leg arrays are made read-only in half of the '
-        'pure-Python cases so that a write raises at the culprit (Cython memoryviews refuse read-only buffers). non-trivial/distinct as in C01')
+        'pure-Python cases so that a write raises at the culprit (Cython memoryviews refuse read-only buffers). non-trivial/distinct as in C01'
+        ' Two further parts: `network` (tensors stored in MPS / MPO / sites and the sites lists are fingerprinted around accessor calls, in-place methods on returned objects and on copies, and binary operations with a second state in another charge sector or gauge) and `linalg` (operands and shared legs around every factorization of the C05 workload).')
 ASSUMPTIONS = ['shallow results (copy(deep=False), replace_label, add_trivial_leg, gauge_total_charge, '
                'unary/binary_blockwise, scale_axis, sort_legcharge, complex_conj) are documented to share block data']
 ANCHORS = base.ANCHORS
